@@ -214,7 +214,12 @@ func (c *Ctx) execAssign(st *State, x *ast.AssignStmt) {
 			case *ast.TypeAssertExpr:
 				vals = c.evalTypeAssert(st, r, true).(Tuple).Vs
 			case *ast.IndexExpr:
-				unsupp("comma-ok map read at %s", c.posStr(x.Pos()))
+				// v, ok := m[k]
+				p := c.place(st, r)
+				if !p.isMap || p.mapTy == nil {
+					unsupp("comma-ok index at %s", c.posStr(x.Pos()))
+				}
+				vals = []Val{c.mapLoad(st, p), Scalar{c.mapHas(st, p.mapTy, p.mapRef, c.mapKeyTerm(p)), tBool}}
 			default:
 				v := c.eval(st, x.Rhs[0])
 				t, ok := v.(Tuple)
@@ -649,12 +654,24 @@ func (c *Ctx) analyseLoop(nodes ...ast.Node) *loopInfo {
 			c.noteHeapWrite(li, e) // the written families, or "*" when they cannot be determined
 		}
 	}
+	exiting := map[*ast.BlockStmt]bool{}
+	for _, n := range nodes {
+		if n != nil {
+			markExitingBlocks(n, true, false, exiting)
+		}
+	}
 	for _, n := range nodes {
 		if n == nil {
 			continue
 		}
 		ast.Inspect(n, func(nd ast.Node) bool {
 			switch s := nd.(type) {
+			case *ast.BlockStmt:
+				if exiting[s] {
+					// control never comes back to the loop head from this block: what it writes is not part of the
+					// state at an arbitrary later iteration (the block itself is still executed symbolically)
+					return false
+				}
 			case *ast.AssignStmt:
 				for i, l := range s.Lhs {
 					var rhs ast.Expr
@@ -702,6 +719,98 @@ func (c *Ctx) analyseLoop(nodes ...ast.Node) *loopInfo {
 	return li
 }
 
+// markExitingBlocks finds the blocks inside a loop from which control can never return to the loop head: blocks that end
+// in return (outside function literals), in an unlabeled break that targets the analysed loop, or in a call of panic,
+// and that contain no continue / goto / labeled branch.
+func markExitingBlocks(n ast.Node, breakOK, inLit bool, out map[*ast.BlockStmt]bool) {
+	switch x := n.(type) {
+	case nil:
+		return
+	case *ast.BlockStmt:
+		if x == nil {
+			return
+		}
+		if len(x.List) > 0 && blockLeaves(x, breakOK, inLit) {
+			out[x] = true
+			return
+		}
+		for _, s := range x.List {
+			markExitingBlocks(s, breakOK, inLit, out)
+		}
+	case *ast.IfStmt:
+		markExitingBlocks(x.Body, breakOK, inLit, out)
+		if x.Else != nil {
+			markExitingBlocks(x.Else, breakOK, inLit, out)
+		}
+	case *ast.ForStmt:
+		markExitingBlocks(x.Body, false, inLit, out)
+	case *ast.RangeStmt:
+		markExitingBlocks(x.Body, false, inLit, out)
+	case *ast.SwitchStmt:
+		for _, cc := range x.Body.List {
+			for _, s := range cc.(*ast.CaseClause).Body {
+				markExitingBlocks(s, false, inLit, out)
+			}
+		}
+	case *ast.TypeSwitchStmt:
+		for _, cc := range x.Body.List {
+			for _, s := range cc.(*ast.CaseClause).Body {
+				markExitingBlocks(s, false, inLit, out)
+			}
+		}
+	case *ast.LabeledStmt:
+		markExitingBlocks(x.Stmt, breakOK, inLit, out)
+	}
+}
+
+func blockLeaves(b *ast.BlockStmt, breakOK, inLit bool) bool {
+	switch last := b.List[len(b.List)-1].(type) {
+	case *ast.ReturnStmt:
+		if inLit {
+			return false
+		}
+	case *ast.BranchStmt:
+		if last.Tok != token.BREAK || last.Label != nil || !breakOK {
+			return false
+		}
+	case *ast.ExprStmt:
+		ce, ok := last.X.(*ast.CallExpr)
+		if !ok {
+			return false
+		}
+		if id, ok := ce.Fun.(*ast.Ident); !ok || id.Name != "panic" {
+			return false
+		}
+	default:
+		return false
+	}
+	clean := true
+	for i, s := range b.List {
+		isLast := i == len(b.List)-1
+		ast.Inspect(s, func(nd ast.Node) bool {
+			switch y := nd.(type) {
+			case *ast.FuncLit:
+				return false
+			case *ast.BranchStmt:
+				if isLast && nd == s {
+					return true
+				}
+				if y.Tok == token.CONTINUE || y.Tok == token.GOTO || y.Label != nil {
+					clean = false
+				}
+				if y.Tok == token.BREAK && y.Label == nil {
+					// an inner unlabeled break leaves an inner loop/switch (stays in the block) or - if it is not nested
+					// in one - leaves the analysed loop: either way it does not reach the loop head
+				}
+			case *ast.LabeledStmt:
+				clean = false
+			}
+			return true
+		})
+	}
+	return clean
+}
+
 func (c *Ctx) noteHeapWrite(li *loopInfo, e ast.Expr) {
 	// never clears an "everything" mark left by another statement of the loop (a call with an unknown footprint)
 	var fams [][2]string
@@ -712,6 +821,16 @@ func (c *Ctx) noteHeapWrite(li *loopInfo, e ast.Expr) {
 	}
 	switch l := ast.Unparen(e).(type) {
 	case *ast.IndexExpr:
+		if xt, ok := c.pkg.info.Types[l.X]; ok && xt.Type != nil {
+			if m, isMap := xt.Type.Underlying().(*types.Map); isMap {
+				// m[k] = v: the map families of that key/element type (maps are havocked wholesale at loop heads)
+				for _, sfx := range []string{"#dom", "#len", "#val"} {
+					li.heapFams[c.mapPrefix(m)+sfx] = true
+					li.rootsUnk[c.mapPrefix(m)+sfx] = true
+				}
+				return
+			}
+		}
 		c.leafFamilies(c.elemPrefix(tv.Type), tv.Type, &fams)
 		_ = l
 	case *ast.StarExpr:
@@ -746,7 +865,10 @@ func (c *Ctx) noteHeapWrite(li *loopInfo, e ast.Expr) {
 		// the owner may itself be a by-value struct variable (then it is a variable write)
 		if root := rootIdent(l); root != nil {
 			if obj := c.pkg.info.ObjectOf(root); obj != nil {
-				if _, isPtr := obj.Type().Underlying().(*types.Pointer); !isPtr {
+				switch obj.Type().Underlying().(type) {
+				case *types.Pointer, *types.Slice, *types.Map:
+					// the write goes through the reference the variable holds: the variable itself keeps its value
+				default:
 					li.modVars[obj] = true
 				}
 			}
